@@ -49,7 +49,7 @@ ASSUMPTIONS = ["SimStreamTransport is faithful to asyncio's transport contract"]
 REQUIRED_PROBES = ["line_split_across_chunks", "multibyte_split", "invalid_utf8", "eof_mid_line", "eof_clean",
                    "reset_during_blocked_read", "overlong_line", "backpressure_drain_blocked", "connect_failed",
                    "write_error", "close_error", "use_before_connect", "serial_kind", "tcp_kind", "non_ascii_write",
-                   "close_raises_synchronously"]
+                   "close_raises_synchronously", "second_session"]
 SHRINK_LISTS = ("lines", "chunks", "writes", "tapes")
 
 LINES = [b"1;0;1;0;2;1", b"", b"0;255;3;0;9;log", "12;6;1;0;47;ünï".encode(), "7;1;1;0;47;温度".encode(),
@@ -58,7 +58,7 @@ LINES = [b"1;0;1;0;2;1", b"", b"0;255;3;0;9;log", "12;6;1;0;47;ünï".encode(), 
 
 
 def budget(tier):
-    return 3000 if tier == "quick" else 150_000
+    return 10000 if tier == "quick" else 150_000
 
 
 def wall(tier):
@@ -101,7 +101,7 @@ def gen(seed: int, i: int, tier: str) -> dict:
            "consume_at": rng.choice([None, 3.5, 9.5]), "write_error_before": rng.choice([None, None, None, 0, 1]),
            "reset_at": rng.choice([None, None, None, 0.75, 2.75]) if writes else None,
            "close_error": rng.choice([False] * 6 + ["async", "sync"]), "use_before_connect": rng.random() < 0.1,
-           "limit": None}
+           "limit": None, "second_session": rng.random() < 0.25}
     tapes = {}
     if rng.random() < 0.08:
         tapes["connect.fail"] = [rng.choice(["refused", "timeout", "unreachable", "gaierror"])]
@@ -425,6 +425,37 @@ def _run(scn, cfg, w, peer, res):
         res.probes["close_error"] += 1
         if w.faults.get("stream_close_raises"):
             res.probes["close_raises_synchronously"] += 1
+    # ---- a second session on the same transport object: what a caller's reconnect loop does ----
+    if cfg.get("second_session") and t.done() and t.exception() is None:
+        res.probes["second_session"] += 1
+        peer2 = SimPeer(w, "peer2")
+        install_network(w, peer2)
+        _serial_mod.open_serial_connection = make_open_serial_connection(w, peer2)
+        w.tapes = Tapes({})
+        t2 = run_coro(tr.connect())
+        if not t2.done() or t2.exception() is not None:
+            res.violate(PROP, "reconnect", f"connect-failed:{exc_name(t2.exception()) if t2.done() else 'hang'}", "")
+        elif not peer2.connected:
+            res.violate(PROP, "reconnect", "no-new-connection-opened", "connect() after disconnect() returned without connecting")
+        else:
+            peer2.send("7;1;1;0;0;21.0\n7;2;1;".encode())
+            peer2.send("0;1;50\n".encode())
+            got = []
+            for _ in range(2):
+                tt = run_coro(tr.read())
+                got.append(tt.result() if tt.done() and tt.exception() is None else
+                           ("err:" + exc_name(tt.exception()) if tt.done() else "hang"))
+                if not tt.done():
+                    tt.cancel()
+            if got != ["7;1;1;0;0;21.0\n", "7;2;1;0;1;50\n"]:
+                res.violate(PROP, "reconnect", "second-session-reads-differ", f"got {got}")
+            tw = run_coro(tr.write("9;9;1;0;2;1\n"))
+            if not tw.done() or tw.exception() is not None or bytes(peer2.received) != b"9;9;1;0;2;1\n":
+                res.violate(PROP, "reconnect", "second-session-write-lost",
+                            f"peer got {bytes(peer2.received)!r} ({exc_name(tw.exception()) if tw.done() and tw.exception() else ''})")
+            td = run_coro(tr.disconnect())
+            if not td.done() or td.exception() is not None:
+                res.violate(PROP, "disconnect", "second-session-disconnect-raised", "")
     # ---- probes ----
     off = 0
     bounds = set()
